@@ -886,6 +886,25 @@ def r16_messages_total(a, tier):
                          f'correctly cannot be printed (str(e), e.message and e.render() raise)', m.loc)
     if not n:
         raise AnalysisError('C08.R16: no message property found in tatsu/exceptions.py')
+    # the text a failed choice reports (Model.expectingstr), for every size of the list of expected elements - a choice whose options all
+    # begin with elements that have no first token (meta expressions, $, constants) expects an EMPTY list
+    es = a.ct.lookup('tatsu.peg.base.Model', 'expectingstr')
+    if es is not None:
+        for exp in ([], ['x'], ['x', 'y'], ["it's", '"q"', 'z']):
+            me = Stub('tatsu.peg.choice.Choice' if 'tatsu.peg.choice.Choice' in a.p.classes else 'tatsu.peg.base.Model', expecting=list(exp), lookaheadlist=list(exp))
+            try:
+                got = ModelInterp(a).call_bound(Bound(me, es), [], {})
+                outcome, ok = 'returns ' + type(got).__name__, isinstance(got, str)
+            except Raised as r:
+                outcome, ok = f'raises {r.cls_name}', False
+            except Unsupported as e:
+                raise AnalysisError(f'C08.R16: cannot interpret Model.expectingstr: {e}') from e
+            except (TypeError, AttributeError, ValueError, IndexError) as e:
+                outcome, ok = f'raises {type(e).__name__}: {e}', False
+            rep.add({'text': 'Model.expectingstr', 'expected_elements': exp, 'outcome': outcome, 'ok': ok})
+            if not ok:
+                rep.fail(es.qualname, f'expectingstr:{len(exp)}', f'Model.expectingstr with {len(exp)} expected element(s) {exp}: {outcome}; the failure of a choice is built from '
+                         f'this text, so parse() raises that exception instead of a FailedParse', es.loc)
     return rep
 
 
